@@ -23,6 +23,14 @@ pub enum Position {
     TrailingDot,
     /// a trailing link whose body ends in another link of the same directory
     TrailingChain,
+    /// no-follow lookup of "dir/link/": the slash makes the kernel follow the link after all
+    NofollowSlash,
+    /// "dir/link//"
+    NofollowSlashes,
+    /// one-shot open of "dir/link/" with O_NOFOLLOW|O_DIRECTORY
+    OpenNofollowSlash,
+    /// no-follow lookup of "dir/link/."
+    NofollowDot,
 }
 
 #[derive(Clone, Debug, Serialize, Deserialize)]
@@ -47,7 +55,7 @@ pub fn all_cases() -> Vec<Case> {
             for dir_owner in [0u32, 1000, 1001] {
                 for link_owner in [0u32, 1000, 1001] {
                     for caller in [(0u32, 0u32), (1000, 1000), (1001, 1001), (1001, 1000)] {
-                        for position in [Position::TrailingFollow, Position::TrailingNofollow, Position::Intermediate, Position::OpenSubpath, Position::TrailingSlash, Position::TrailingDot, Position::TrailingChain] {
+                        for position in [Position::TrailingFollow, Position::TrailingNofollow, Position::Intermediate, Position::OpenSubpath, Position::TrailingSlash, Position::TrailingDot, Position::TrailingChain, Position::NofollowSlash, Position::NofollowSlashes, Position::OpenNofollowSlash, Position::NofollowDot] {
                             for warm in [false, true] {
                                 v.push(Case { dir_mode, dir_owner, link_owner, caller, position, sysctl, warm });
                             }
@@ -178,7 +186,7 @@ pub fn child(case: &Case, kcfg: Kcfg) -> Report {
     mkdir_p(&sticky.join("td"));
     std::fs::write(sticky.join("td/x"), b"inner").unwrap();
     let body = match case.position {
-        Position::Intermediate | Position::TrailingSlash | Position::TrailingDot => "td",
+        Position::Intermediate | Position::TrailingSlash | Position::TrailingDot | Position::NofollowSlash | Position::NofollowSlashes | Position::OpenNofollowSlash | Position::NofollowDot => "td",
         Position::TrailingChain => "l2",
         _ => "t",
     };
@@ -200,6 +208,10 @@ pub fn child(case: &Case, kcfg: Kcfg) -> Report {
         Position::TrailingSlash => Op::Resolve { path: B::new("s/l/") },
         Position::TrailingDot => Op::Resolve { path: B::new("s/l/.") },
         Position::TrailingChain => Op::Resolve { path: B::new("s/l") },
+        Position::NofollowSlash => Op::ResolveNofollow { path: B::new("s/l/") },
+        Position::NofollowSlashes => Op::ResolveNofollow { path: B::new("s/l//") },
+        Position::OpenNofollowSlash => Op::Open { path: B::new("s/l/"), flags: libc::O_RDONLY | libc::O_DIRECTORY | libc::O_NOFOLLOW },
+        Position::NofollowDot => Op::ResolveNofollow { path: B::new("s/l/.") },
     };
     let run = |k: Kcfg| -> Out {
         with_session(k, None, |s| {
@@ -289,7 +301,7 @@ pub fn judge(case: &Case, rep: &Report, stats: &mut Stats) -> Result<(), Fail> {
     stats.class(&format!("kernel:{}", rep.oracle.class()));
     stats.class(&format!("position:{:?}", case.position));
     // the kernel applies the rule to trailing links only (WALK_TRAILING)
-    let checked = matches!(case.position, Position::TrailingFollow | Position::OpenSubpath | Position::TrailingSlash | Position::TrailingChain);
+    let checked = matches!(case.position, Position::TrailingFollow | Position::OpenSubpath | Position::TrailingSlash | Position::TrailingChain | Position::NofollowSlash | Position::NofollowSlashes | Position::OpenNofollowSlash);
     let second_link_denied = case.position == Position::TrailingChain && !kernel_rule(&Case { link_owner: 0, ..case.clone() });
     let denied_by_rule = checked && (!kernel_rule(case) || second_link_denied);
     if denied_by_rule != (rep.oracle == KOut::Err(libc::EACCES)) {
@@ -411,11 +423,11 @@ fn replay(_ctx: &Ctx, _check: &str, case: &Value) -> Result<(), Fail> {
 pub const PROP: Prop = Prop {
     id: "C15",
     level: "exploration",
-    rule: "the full finite product (enumerated: 2 x 5 x 3 x 3 x 4 x 7 x 2 = 5040 cases) of sysctl value {0,1} x directory mode {0755, 0777, 01777, 01775, 01755} x directory owner {0,1000,1001} x link owner {0,1000,1001} x caller {root, uid 1000, uid 1001, real 1001/effective 1000} x link position {trailing followed, trailing not followed, intermediate component, one-shot open, 'link/' , 'link/.', chain of two trailing links} x {fresh process; process that already did the same lookup under another effective uid}. The real fs.protected_symlinks is set (under a lock, restored on every exit path); each case runs in a child that builds the directory and link as root, becomes the caller, and then asks (a) the kernel itself: openat2(RESOLVE_IN_ROOT) as that user, (b) the library with openat2 -> ENOSYS (emulated walk), (c) in a separate process (the back-end is chosen once per process) the library's openat2 backend, for the fresh-process cases. Oracle: (b) and (c) equal (a): same object or same errno, EACCES exactly where the kernel says so. The documented rule (sticky & world-writable, link owner neither the caller's fsuid nor the directory owner) only classifies; its disagreement with the kernel is reported as model_disagreements. non-trivial = sticky world-writable directory and link not owned by the caller",
+    rule: "the full finite product (enumerated: 2 x 5 x 3 x 3 x 4 x 11 x 2 = 7920 cases) of sysctl value {0,1} x directory mode {0755, 0777, 01777, 01775, 01755} x directory owner {0,1000,1001} x link owner {0,1000,1001} x caller {root, uid 1000, uid 1001, real 1001/effective 1000} x link position {trailing followed, trailing not followed, intermediate component, one-shot open, 'link/' , 'link/.', chain of two trailing links, and no-follow lookups of 'link/', 'link//', 'link/.' plus a one-shot O_NOFOLLOW|O_DIRECTORY open of 'link/'} x {fresh process; process that already did the same lookup under another effective uid}. The real fs.protected_symlinks is set (under a lock, restored on every exit path); each case runs in a child that builds the directory and link as root, becomes the caller, and then asks (a) the kernel itself: openat2(RESOLVE_IN_ROOT) as that user, (b) the library with openat2 -> ENOSYS (emulated walk), (c) in a separate process (the back-end is chosen once per process) the library's openat2 backend, for the fresh-process cases. Oracle: (b) and (c) equal (a): same object or same errno, EACCES exactly where the kernel says so. The documented rule (sticky & world-writable, link owner neither the caller's fsuid nor the directory owner) only classifies; its disagreement with the kernel is reported as model_disagreements. non-trivial = sticky world-writable directory and link not owned by the caller",
     assumptions: &["changes the system-wide fs.protected_symlinks for the duration of the run (serialised by a lock file, restored by guard, signal handler and by the next run if the process was killed)", "other checks are unaffected while it is 1: their links are owned by the caller"],
     lanes: |_| 1,
     run_lane,
     replay,
-    extra: Some(|_| json!({"exhaustive_scope": "all 5040 combinations"})),
+    extra: Some(|_| json!({"exhaustive_scope": "all 7920 combinations"})),
     exhaustive: true,
 };
